@@ -20,6 +20,7 @@ import GnarkVerif.Model.MiMC
 import GnarkVerif.Model.Poseidon2
 import GnarkVerif.Model.SIS
 import GnarkVerif.Model.TowerExec
+import GnarkVerif.Model.MSM
 /-
 Line-protocol driver: one op per input line, one canonical result per output line.
 The Go harness runs the real implementation on the same lines; bin/check diffs the two streams.
@@ -61,6 +62,7 @@ def handleLine (line : String) : String :=
   | "C14" :: "sis" :: rest => SIS.handleWith true rest
   | "C14" :: "sism" :: rest => SIS.handle rest
   | "C06slp" :: rest => TowerExec.handle rest
+  | "C04" :: rest => MSM.handle rest
   | _ => "bad-op"
 
 partial def loop (h : IO.FS.Stream) (out : IO.FS.Stream) : IO Unit := do
